@@ -94,6 +94,10 @@ class Ctx:
         return _Guard(self, monitor, case, classify)
 
 
+# class names of the harness's proxy objects that the repository's code gets to see
+HARNESS_TYPE_NAMES = ('_CProxy', 'ShadowC', '_OpsProxy', '_Walk', 'MonHeap', 'OrderedLauncher')
+
+
 class _Guard:
     def __init__(self, ctx, monitor, case, classify):
         self.ctx, self.monitor, self.case, self.classify = ctx, monitor, case, classify
@@ -108,6 +112,8 @@ class _Guard:
         if issubclass(et, (KeyboardInterrupt, SystemExit, HarnessError, MemoryError)):
             return False
         fr = repo_frame(tb)
+        if fr is not None and any(nm in str(ev) for nm in HARNESS_TYPE_NAMES):
+            fr = None      # the repository tripped over one of the harness's own stand-in objects (a monitor proxy lacks something): the harness failed
         if fr is None:
             raise HarnessError(f'harness failure in monitor {self.monitor}: {et.__name__}: {ev}\n' +
                                ''.join(traceback.format_tb(tb)[-4:])) from ev
